@@ -60,7 +60,11 @@ func makeURLKey(u *url.URL) string {
 			if strings.EqualFold(u.Scheme, "http") || strings.EqualFold(u.Scheme, "https") {
 				// An http(s) request target that cannot be spelled out still belongs to
 				// its scheme and authority.
-				return strings.ToLower(u.Scheme) + "://" + asciiLower(u.Host) + "/%00opaque/" + u.Opaque
+				key := strings.ToLower(u.Scheme) + "://" + asciiLower(u.Host) + "/%00opaque/" + u.Opaque
+				if u.RawQuery != "" || u.ForceQuery {
+					key += "?" + u.RawQuery // part of the request target net/http sends
+				}
+				return key
 			}
 			return u.Opaque
 		}
